@@ -290,14 +290,14 @@ def _nested():
 def classify_raise(name, a, k, exc):
     """mechanism key for a raising generator call"""
     if name == "gen_combine_terms_in_place" and isinstance(exc, ValueError) and "random variables" in str(exc):
-        # the noise request (total_terms - 2) is drawn, with a bounded number of retries, from a
-        # pool of 23 variables (24 letters minus the focus variable): N >= 24 can never be
-        # served, N = 22/23 can exhaust the retry bound
+        # the noise request (total_terms - 2) is drawn from a pool of 23 variables (24 letters minus the
+        # focus variable): N >= 24 can never be served.  (N = 22/23 used to exhaust the retry bound of
+        # get_rand_vars; repaired in e5f08bc, so such a failure is reported again.)
         import re
 
         m = re.search(r"for (\d+) random variables", str(exc))
-        if m and int(m.group(1)) >= 22:
-            return "gen/gen_combine_terms_in_place/noise-request-near-or-above-pool(N>=22 of 23)"
+        if m and int(m.group(1)) >= 24:
+            return "gen/gen_combine_terms_in_place/noise-request-above-pool(N>=24 of 23)"
     return f"gen/{name}/raises/{type(exc).__name__}"
 
 
